@@ -300,6 +300,8 @@ fn conversions(rep: &mut Report, r: &mut Rng) {
 }
 
 pub fn run(ctx: &Ctx, rep: &mut Report) {
+    // injected delays: fragments of one group fed seconds apart (own threads, joined at the end)
+    let pauses = start_pause_probes(ctx);
     let mut r = ctx.rng("c05");
     let ids: [(Option<u8>, &str); 8] = [(None, ""), (Some(0), "0"), (Some(5), "5"), (Some(9), "9"), (Some(10), "10"), (Some(99), "99"), (Some(255), "255"), (Some(7), "007")];
     // (1) all compositions of short payloads (every split of lengths 2..=9 into 2..=9 parts)
@@ -388,6 +390,7 @@ pub fn run(ctx: &Ctx, rep: &mut Report) {
         conversions(rep, &mut r);
     }
     rep.require("groups");
+    finish_pause_probes(rep, PID, pauses);
     rep.sample(3, || {
         let mut o = J::obj();
         o.set("history", J::Arr(vec![J::bytes(&nmea_ref::mk(3, 1, Some(4), b"55P5TL01VIaAL@7WKO@mBplU@<PDhh", 0)), J::bytes(&nmea_ref::mk(1, 1, None, b"zzzz", 0)), J::bytes(&nmea_ref::mk(3, 2, Some(4), b"000000001S;AJ::4A8", 0)), J::bytes(&nmea_ref::mk(3, 3, Some(4), b"0?4i@E53", 2))]));
